@@ -3,7 +3,7 @@
 //! getrandom seam) after seeded histories of earlier compilations; every printable stage is
 //! compared byte for byte, assembly modulo consistent renaming of labels.
 
-use crate::orch::{KnownFile, VERIF_DIR, known_match, load_known};
+use crate::orch::{KnownFile, verif_dir, repo_dir, known_match, load_known};
 use crate::prng::{Rng, hash_str};
 use crate::seam;
 use printer::{Print, PrintCfg};
@@ -150,7 +150,7 @@ pub struct KReplay {
 pub fn renderings_via_driver(src: &str, repeat: usize) -> Result<Vec<String>, String> {
     use driver::paths::Paths;
     use driver::{Driver, PrintMode};
-    let dir = format!("{VERIF_DIR}/work/kd-{}-{:?}", std::process::id(), std::thread::current().id()).replace(['(', ')'], "");
+    let dir = format!("{}/work/kd-{}-{:?}", verif_dir(), std::process::id(), std::thread::current().id()).replace(['(', ')'], "");
     std::fs::create_dir_all(&dir).map_err(|e| e.to_string())?;
     let old = std::env::current_dir().map_err(|e| e.to_string())?;
     std::env::set_current_dir(&dir).map_err(|e| e.to_string())?;
@@ -251,8 +251,8 @@ pub fn compare(src: &str, a: &Instance, b: &Instance) -> Option<(String, String)
 
 pub fn corpus() -> Vec<(String, String)> {
     let mut v = Vec::new();
-    for dir in ["/repo/examples", "/repo/testsuite/end_to_end", "/repo/testsuite/success_check", "/repo/benchmarks"] {
-        let mut stack = vec![std::path::PathBuf::from(dir)];
+    for sub in ["examples", "testsuite/end_to_end", "testsuite/success_check", "benchmarks"] {
+        let mut stack = vec![std::path::PathBuf::from(format!("{}/{sub}", repo_dir()))];
         while let Some(d) = stack.pop() {
             let Ok(rd) = std::fs::read_dir(&d) else { continue };
             let mut entries: Vec<_> = rd.filter_map(|e| e.ok()).map(|e| e.path()).collect();
@@ -489,7 +489,7 @@ pub fn check(tier: &str) -> i32 {
         cmd.env("COLUMNS", rng.pick(&["20", "80", "132", "400"]).to_string());
         cmd.env("LANG", *rng.pick(&["C", "en_US.UTF-8", "de_DE.UTF-8"]));
         cmd.env("RUST_BACKTRACE", *rng.pick(&["0", "1"]));
-        let wd = format!("{VERIF_DIR}/work/k{w}");
+        let wd = format!("{}/work/k{w}", verif_dir());
         let _ = std::fs::create_dir_all(&wd);
         cmd.current_dir(&wd);
         let mut c = cmd.stdout(Stdio::piped()).stderr(Stdio::null()).spawn().expect("spawn");
@@ -539,7 +539,7 @@ pub fn check(tier: &str) -> i32 {
         }
     }
     for w in 0..nw {
-        let _ = std::fs::remove_dir_all(format!("{VERIF_DIR}/work/k{w}"));
+        let _ = std::fs::remove_dir_all(format!("{}/work/k{w}", verif_dir()));
     }
     // cross-process agreement on the corpus
     let mut cross = 0u64;
@@ -578,7 +578,7 @@ pub fn check(tier: &str) -> i32 {
             continue;
         }
         unexplained += 1;
-        let dir = format!("{VERIF_DIR}/replays/C17");
+        let dir = format!("{}/replays/C17", verif_dir());
         let _ = std::fs::create_dir_all(&dir);
         let body = serde_json::to_string_pretty(&rp).unwrap();
         let path = format!("{dir}/Nondeterminism-{}-{:016x}.json", rp.stage, hash_str(&body));
@@ -596,7 +596,7 @@ pub fn check(tier: &str) -> i32 {
     if found.is_empty() && !cross_diff.is_empty() {
         // differences that only show between genuinely separate processes
         violations += 1;
-        let dir = format!("{VERIF_DIR}/replays/C17");
+        let dir = format!("{}/replays/C17", verif_dir());
         let _ = std::fs::create_dir_all(&dir);
         let path = format!("{dir}/cross-process-{:016x}.json", hash_str(&cross_diff.join("\n")));
         std::fs::write(&path, serde_json::to_string_pretty(&serde_json::json!({"engine": "K", "property": "C17", "class": "CrossProcess", "differences": cross_diff, "verif_seed": seed})).unwrap()).expect("write");
@@ -632,8 +632,8 @@ pub fn check(tier: &str) -> i32 {
         "assumptions": ["std's RandomState draws its per-thread keys through the interposed `getrandom` symbol (checked at run time: hash_key_requests_served_by_seam > 0)", "label canonicalisation renames exactly the tokens defined as labels in the file", "exploration: a clean batch is evidence, not proof"],
         "wall_s": wall, "violations": violations
     });
-    let _ = std::fs::create_dir_all(format!("{VERIF_DIR}/evidence"));
-    std::fs::write(format!("{VERIF_DIR}/evidence/C17.json"), serde_json::to_string_pretty(&ev).unwrap()).expect("evidence");
+    let _ = std::fs::create_dir_all(format!("{}/evidence", verif_dir()));
+    std::fs::write(format!("{}/evidence/C17.json", verif_dir()), serde_json::to_string_pretty(&ev).unwrap()).expect("evidence");
     if total.key_requests == 0 {
         println!("HARNESS-ERROR: the getrandom seam was never consulted; hash keys are not under the simulator's control");
         return 2;
